@@ -356,7 +356,7 @@ def run_check(run, tier, seed, shard):
     numpy.random.seed((seed * 1000 + sh) % (2 ** 32))
     stats = {}
     t0 = time.time()
-    budget = 75 if quick else 800
+    budget = 400 if quick else 2400
 
     # 1. hand-picked overflow designs
     sp = special_plans()
@@ -387,7 +387,7 @@ def run_check(run, tier, seed, shard):
         catalogue_case(run, e, cfg, rng(seed, 'C06', 'cat', e.name, cfg), stats)
 
     # 3. random compositions
-    n_comp = 240 if quick else 4800
+    n_comp = 240 if quick else 24000
     for i in shard_slice(range(n_comp), shard):
         if time.time() - t0 > budget or run.too_many:
             stats['compositions_skipped_time'] = stats.get('compositions_skipped_time', 0) + 1
@@ -399,7 +399,7 @@ def run_check(run, tier, seed, shard):
         else:
             plan = netgen.gen_dag(rnd, rnd.randint(3, 14 if quick else 30), n_regs=rnd.randint(1, 4), n_boxes=rnd.randint(0, 2), allow_random=True, reg_narrow=True, tier=tier)
             wl = 'netgen_dag'
-        plan_case(run, '%s_%d' % (wl, i), plan, rnd, stats, wl, n_cycles=16 if quick else 40)
+        plan_case(run, '%s_%d' % (wl, i), plan, rnd, stats, wl, n_cycles=16 if quick else 60)
 
     for k in ('per_block', 'per_workload', 'raw_by_class'):
         run.extra[k if k != 'raw_by_class' else 'raw_out_of_range_by_leaf_class'] = stats.pop(k, {})
@@ -435,7 +435,7 @@ def post_merge(run, tier, seed):
 
 
 def replay(run, case):
-    c = case['case']
+    c = netgen.dehex(case['case'])
     stats = {}
     vecs = [tuple(int(v, 16) if isinstance(v, str) else v for v in vec) for vec in c['vectors']]
     n0 = len(run.violations)
